@@ -1,15 +1,59 @@
 /-
-Driver.FmtSuite — suite `fmt` (stub: replaced by the owner of the suite).
-Must define `fmtLine : String → String` (case line ↦ model observation line) and
-`fmtPred : String → String → String → String` (property id, case line, implementation
-observation line ↦ "ok" | "fail <reason>").
+Driver.FmtSuite — suite `fmt`: run Model.IdlFormat on a case and print the observation in the
+canonical form of harness/src/suites/fmt.rs.
 -/
-import Driver.Sx
+import Driver.IdlSuite
+import VarlinkVerif.Model.IdlFormat
+import VarlinkVerif.Pred.IdlFmt
 
 namespace VV
+open Sx Idl
 
-def fmtLine (_line : String) : String := "(stub)"
+def fmtCase (sx : Sx) : Sx :=
+  match sx with
+  | .list [.atom "fmt", w, t] =>
+    match asNat w, (asStr t).map String.toList with
+    | some w, some t =>
+      match tryFrom t with
+      | .ok i =>
+        let plain := Fmt.multiline i 0 w
+        let colored := Fmt.multilineC i 0 w
+        let (re, second) : Sx × Bool :=
+          match tryFrom plain with
+          | .ok i2 => (idlSx i2, Fmt.multiline i2 0 w == plain)
+          | o => (outcomeSx o, false)
+        .list [.atom "fmt", idlSx i, strSx plain, strSx colored, re, ofBool second]
+      | _ => .list [.atom "unparsable"]
+    | _, _ => .atom "model-case-error"
+  | .list [.atom "fmt1", t] =>
+    match (asStr t).map String.toList with
+    | some t =>
+      match tryFrom t with
+      | .ok i => .list [.atom "fmt1", strSx (Fmt.oneline i), strSx (Fmt.onelineC i), strSx (Fmt.display i)]
+      | _ => .list [.atom "unparsable"]
+    | none => .atom "model-case-error"
+  | .list [.atom "cli", w, c, t] =>
+    match asNat w, asOptBool c, (asStr t).map String.toList with
+    | some w, some (some color), some t =>
+      match tryFrom t with
+      | .ok i =>
+        let out := (if color then Fmt.multilineC i 0 w else Fmt.multiline i 0 w) ++ ['\n']
+        .list [.atom "cli", .atom "0", strSx out]
+      | _ => .list [.atom "cli", .atom "1", strSx []]
+    | _, _, _ => .atom "model-case-error"
+  | _ => .atom "model-case-error"
 
-def fmtPred (_prop _caseLine _obsLine : String) : String := "fail stub-suite"
+def fmtLine (line : String) : String :=
+  match parse line with
+  | some sx => render (fmtCase sx)
+  | none => "(model-parse-error)"
+
+def fmtPred (prop caseLine obsLine : String) : String :=
+  match parse caseLine, parse obsLine with
+  | some c, some o =>
+    match (if prop = "C10" then P_C10 c o else some "unknown-property") with
+    | none => "ok"
+    | some r => "fail " ++ r
+  | _, _ => "fail unparsable-line"
 
 end VV
